@@ -58,11 +58,34 @@ impl std::io::Read for IoMock {
             }
             Sev::WouldBlock => Err(Error::new(ErrorKind::WouldBlock, "wb")),
             Sev::Interrupted => Err(Error::new(ErrorKind::Interrupted, "int")),
-            Sev::Other => Err(Error::new(ErrorKind::PermissionDenied, "other")),
-            Sev::Zero => Ok(0),
+            // "any other read error": the kind varies with the position in the schedule
+            Sev::Other => Err(Error::new(OTHER_KINDS[self.pos % OTHER_KINDS.len()], "other")),
+            // end of input: a zero-length read, or the error read_exact would turn it into
+            Sev::Zero => {
+                if self.pos % 2 == 0 {
+                    Ok(0)
+                } else {
+                    Err(Error::new(ErrorKind::UnexpectedEof, "eof"))
+                }
+            }
         }
     }
 }
+
+const OTHER_KINDS: [std::io::ErrorKind; 12] = [
+    std::io::ErrorKind::PermissionDenied,
+    std::io::ErrorKind::TimedOut,
+    std::io::ErrorKind::BrokenPipe,
+    std::io::ErrorKind::ConnectionReset,
+    std::io::ErrorKind::InvalidData,
+    std::io::ErrorKind::Other,
+    std::io::ErrorKind::ConnectionAborted,
+    std::io::ErrorKind::NotConnected,
+    std::io::ErrorKind::InvalidInput,
+    std::io::ErrorKind::AddrInUse,
+    std::io::ErrorKind::NotFound,
+    std::io::ErrorKind::WriteZero,
+];
 
 /// embedded_hal 0.2 serial reader; after the last event it would block forever
 pub struct EhMock {
@@ -296,11 +319,34 @@ fn run_abuf<const N: usize>(ops: &str) -> String {
     nonempty(out.join(";"))
 }
 
+/// FromIterator must depend on the yielded bytes only: the same bytes are offered through
+/// iterators with an exact, a loose (lower 0), an over-estimating and an absent size hint
 fn run_abfrom<const N: usize>(h: &str) -> String {
     let v = unhex(h);
-    match catch_unwind(|| v.iter().cloned().collect::<ArrayBuf<N>>()) {
-        Ok(a) => format!("ok:{}", hex(&a)),
-        Err(_) => "P".to_string(),
+    fn show<const N: usize>(r: std::thread::Result<ArrayBuf<N>>) -> String {
+        match r {
+            Ok(a) => format!("ok:{}", hex(&a)),
+            Err(_) => "P".to_string(),
+        }
+    }
+    let exact = show(catch_unwind(|| v.iter().cloned().collect::<ArrayBuf<N>>()));
+    let loose = show(catch_unwind(|| v.iter().cloned().filter(|_| true).collect::<ArrayBuf<N>>()));
+    let junk = [0x1bu8; 300];
+    let over = show(catch_unwind(|| {
+        v.iter().cloned().chain(junk.iter().cloned().filter(|_| false)).collect::<ArrayBuf<N>>()
+    }));
+    let nohint = show(catch_unwind(|| {
+        let mut i = 0;
+        std::iter::from_fn(|| {
+            i += 1;
+            v.get(i - 1).cloned()
+        })
+        .collect::<ArrayBuf<N>>()
+    }));
+    if exact == loose && exact == over && exact == nohint {
+        exact
+    } else {
+        format!("MIXED:exact={},loose={},over={},nohint={}", exact, loose, over, nohint)
     }
 }
 
